@@ -283,7 +283,7 @@ static void gen(Plan* p, Rng* r0, int tier, long idx) {
     plan_set(p, "workers", rng_range(&r, 2, 3));
     plan_set(p, "use_dict", (S == 1 || S == 2 || S == 3 || S == 8 || S == 9 || S == 10 || S == 14) ? 1 : (int64_t)rng_below(&r, 2));
     plan_set(p, "dict_size", rng_range(&r, 300, 30000));
-    if (rng_coin(&r, 1, 4)) plan_set(p, "ldm", 1);
+    if (k_scen[S].needs_mt ? (v & 1) : rng_coin(&r, 1, 4)) plan_set(p, "ldm", 1);   /* MT scenarios alternate LDM on/off by variant: workers allocate sequence buffers only with LDM */
     if (rng_coin(&r, 1, 3)) plan_set(p, "wlog", rng_range(&r, 12, 22));
     plan_set(p, "train_opt", (int64_t)rng_below(&r, 2));
     plan_set(p, "train_threads", rng_coin(&r, 1, 2) ? 1 : rng_range(&r, 2, 3));
